@@ -617,6 +617,17 @@ def make_file(rng, fmt, nframes):
         return lines, meta, None
     frames = [rand_frame(rng, i, fmt) for i in range(nframes)]
     lines = real_dump_many(fmt, frames, as_gen=rng.random() < 0.5)
+    if fmt == "sdf" and rng.random() < 0.5:
+        # the three header lines as other programs fill them: molecule name (may be blank), program/timestamp line,
+        # comment line (the library's own writer leaves lines 2 and 3 empty)
+        for k, s0 in enumerate(frame_spans("sdf", lines)):
+            if rng.random() < 0.4:
+                lines[s0] = "\n"
+                frames[k].title = ""
+            if rng.random() < 0.6:
+                lines[s0 + 1] = rng.choice(["  -OEChem-03231108593D\n", "     RDKit          3D\n", "  ChemDraw09282609123D\n"])
+            if rng.random() < 0.4:
+                lines[s0 + 2] = rng.choice(["generated by hand\n", "comment\n", " 1\n"])
     return lines, [f.natom for f in frames], frames
 
 
